@@ -399,6 +399,14 @@ func corrHistory(rep *report, r *rng, hidx int, probe int) (string, [3]int, int)
 		b := acmelib.NewBus(fmt.Sprintf("b%d", len(c.buses)))
 		baud := []int{0, 125000, 500000}[r.intn(3)]
 		b.SetBaudrate(baud)
+		if r.chance(40) {
+			// custom builder with operations past bit 31 (legal through Use*); Calculate must not
+			// rewrite them: the model keeps the operation list as created
+			cb := acmelib.NewCANIDBuilder(fmt.Sprintf("cb%d", len(c.buses)))
+			cb.UseNodeID(0, 4).UseMessageID(24, 11).UseNodeID(28, 8).UseBitMask(30, 4).UseMessageID(4, 0).UseNodeID(33, 2).UseBitMask(0, 40)
+			b.SetCANIDBuilder(cb)
+			c.hidden = append(c.hidden, cb)
+		}
 		c.buses = append(c.buses, b)
 		emit(fmt.Sprintf("nb:%d:%s", baud, dash(ints(builderFlat(b.CANIDBuilder())))), []int{0})
 	}
